@@ -295,7 +295,15 @@ func (h *Handler) saltAuthToken(req *http.Request, remote string) (updatedReq *h
 	}
 	updatedReq.Header = http.Header{}
 	for k, v := range req.Header {
-		if k != "Authorization" {
+		if k == "Cookie" {
+			// Forward the other cookies, but not the one
+			// that carries the unsalted token.
+			for _, c := range req.Cookies() {
+				if c.Name != "arvados_api_token" {
+					updatedReq.AddCookie(c)
+				}
+			}
+		} else if k != "Authorization" {
 			updatedReq.Header[k] = v
 		}
 	}
